@@ -161,5 +161,46 @@ def _cases() -> st.SearchStrategy:
     return st.tuples(specs, kinds, st.booleans()).flatmap(with_bytes)
 
 
+U8 = ["uint", 8, "sat"]
+INNER = ["struct", [["a", ["uint", 3, "trunc"]], ["b", ["var", ["int", 9], 3]], ["", ["void", 2]], ["c", ["float", 16, "sat"]]]]
+FUZZ_LIBRARY = [
+    ["struct", [["a", U8]]],
+    ["struct", [["a", ["bool"]], ["b", ["uint", 13, "trunc"]], ["c", ["int", 64]], ["d", ["float", 32, "trunc"]]]],
+    ["struct", [["s", ["var", ["utf8"], 6]], ["t", ["uint", 7, "sat"]]]],
+    ["struct", [["s", ["var", ["byte"], 5]], ["f", ["fixed", ["byte"], 3]], ["t", ["bool"]]]],
+    ["union", [["a", U8], ["b", ["var", ["uint", 16, "sat"], 2]], ["c", INNER]]],
+    ["delim", INNER, 2],
+    ["struct", [["h", ["delim", INNER, 1]], ["tail", ["uint", 16, "sat"]]]],
+    ["struct", [["x", ["uint", 5, "sat"]], ["arr", ["var", ["delim", ["struct", [["p", ["var", U8, 2]]]], 1], 3]], ["tail", ["int", 7]]]],
+    ["union", [["u", ["delim", ["union", [["a", ["bool"]], ["b", ["var", ["utf8"], 4]]]], 0]], ["v", ["fixed", ["struct", [["q", ["uint", 12, "sat"]]]], 2]]]],
+    ["delim", ["struct", [["n", ["delim", ["struct", [["m", ["delim", ["struct", [["z", ["var", ["bool"], 9]]]], 1]]]], 0]], ["k", U8]]], 3],
+    ["struct", [["f", ["fixed", ["float", 64, "sat"], 2]], ["", ["void", 7]], ["g", ["var", ["fixed", ["uint", 3, "sat"], 2], 2]] if False else ["g", ["var", ["uint", 3, "sat"], 4]]]],
+    ["struct", [["u", ["union", [["a", ["uint", 1, "sat"]], ["b", ["int", 2]], ["c", ["var", ["float", 16, "trunc"], 2]]]]], ["w", ["fixed", ["union", [["x", ["bool"]], ["y", U8]]], 2]]]],
+]
+
+
+def fuzz_decode(data: bytes) -> typing.Any:
+    """byte 0: type from a fixed library; byte 1: flags (bit 0: with the top-level delimiter header); the rest: the payload."""
+    if len(data) < 2:
+        return None
+    spec = FUZZ_LIBRARY[data[0] % len(FUZZ_LIBRARY)]
+    return {"spec": spec, "kind": "random", "header": bool(data[1] & 1), "zeros": (data[1] >> 1) % 9, "bytes": data[2:].hex(), "junk": "ff00a5"}
+
+
+def fuzz_corpus(ctx: Ctx) -> typing.List[bytes]:
+    out = []
+    for i, spec in enumerate(FUZZ_LIBRARY):
+        fs = layout.freeze(spec)
+        for header in (0, 1):
+            if header and fs[0] != "delim":
+                continue
+            v = codec.decode(fs, b"", bool(header)) if not header else codec.decode(fs, b"\x00" * 64, True)
+            out.append(bytes([i, header]) + codec.bits_to_bytes(codec.encode(fs, v, bool(header)).bits))
+    return out
+
+
 def parts(ctx: Ctx) -> typing.List[Part]:
-    return [Part("bytes", _cases(), check_bytes, weight=1)]
+    out = [Part("bytes", _cases(), check_bytes, weight=1)]
+    if ctx.tier != "quick":
+        out.append(Part("fuzz-bytes", None, check_bytes, weight=1, fuzz_decode=fuzz_decode, fuzz_corpus=fuzz_corpus))
+    return out
